@@ -10,8 +10,18 @@ cd "$VERIF_DIR/harness" || exit 2
 cp -f "$VERIF_REPO/go.sum" go.sum 2>/dev/null
 mkdir -p "$VERIF_DIR/bin"
 BIN="$VERIF_DIR/bin/vcheck"
+BUILDARGS=(-tags verif)
+if [ "${1:-}" = "C12" ] || { [ "${1:-}" = "replay" ] && grep -q '"property": "C12"' "${2:-/dev/null}" 2>/dev/null; }; then
+  # crash-point check: db/fs is compiled against the os shim through a build overlay generated from the current tree
+  OV="$VERIF_DIR/.work/overlay.$$"
+  mkdir -p "$OV"
+  if ! go run ./cmd/mkoverlay "$VERIF_REPO" "$VERIF_DIR/harness" "$OV" > "$OV/log" 2>&1; then
+    echo "HARNESS-ERROR: overlay generation failed:" >&2; cat "$OV/log" >&2; rm -rf "$OV"; exit 2
+  fi
+  BUILDARGS=(-tags "verif overlay" -overlay "$OV/overlay.json")
+fi
 ( flock 9
-  if ! go build -tags verif -o "$BIN.tmp.$$" ./cmd/vcheck 2> "$VERIF_DIR/bin/build.$$.log"; then
+  if ! go build "${BUILDARGS[@]}" -o "$BIN.tmp.$$" ./cmd/vcheck 2> "$VERIF_DIR/bin/build.$$.log"; then
     echo "HARNESS-ERROR: build against $VERIF_REPO failed:" >&2
     cat "$VERIF_DIR/bin/build.$$.log" >&2
     rm -f "$VERIF_DIR/bin/build.$$.log" "$BIN.tmp.$$"
@@ -20,5 +30,5 @@ BIN="$VERIF_DIR/bin/vcheck"
   rm -f "$VERIF_DIR/bin/build.$$.log"
   mv -f "$BIN.tmp.$$" "$BIN.$$"
 ) 9> "$VERIF_DIR/bin/.lock" || exit 2
-trap 'rm -f "$BIN.$$"' EXIT
+trap 'rm -f "$BIN.$$"; rm -rf "$VERIF_DIR/.work/overlay.$$"' EXIT
 "$BIN.$$" "$@"
